@@ -147,19 +147,19 @@ var c09Backends = []string{"mem", "mem", "mem", "mem", "mem", "mem", "fs", "fsae
 var c09ReqCC = []string{"", "", "", "max-stale=5", "min-fresh=1", "max-age=100000", "stale-if-error=5", "x-ext=1"}
 
 type c09Case struct {
-	Fresh    string  `json:"fresh"`
-	Status   int     `json:"status"`
-	Backend  string  `json:"backend"`
-	URLa     string  `json:"url_a"`
-	URLb     string  `json:"url_b"`
-	Hdr      string  `json:"hdr_pair"`
-	ElapsedS float64 `json:"elapsed_s"`
-	ReqCC    string  `json:"req_cc"`
-	Noise    int     `json:"noise"`
-	BodySize int     `json:"body_size"`
-	EmptyMethod bool `json:"empty_method,omitempty"`
-	fresh    c09Fresh
-	hdr      c09HeaderPair
+	Fresh       string  `json:"fresh"`
+	Status      int     `json:"status"`
+	Backend     string  `json:"backend"`
+	URLa        string  `json:"url_a"`
+	URLb        string  `json:"url_b"`
+	Hdr         string  `json:"hdr_pair"`
+	ElapsedS    float64 `json:"elapsed_s"`
+	ReqCC       string  `json:"req_cc"`
+	Noise       int     `json:"noise"`
+	BodySize    int     `json:"body_size"`
+	EmptyMethod bool    `json:"empty_method,omitempty"`
+	fresh       c09Fresh
+	hdr         c09HeaderPair
 }
 
 // c09Respell applies a random composition of RFC 3986 6.2.2/6.2.3
